@@ -294,7 +294,8 @@ fn nonjump_sweep(ctx: &mut Ctx, vm: &mut Vm) {
                 Err(msg) => {
                     // the sweep runs on a VM without a loaded transaction: Rust panics here are artefacts of that
                     // unreachable state (e.g. GTF `expect("Tx length not in memory")`), recorded, not violations
-                    ctx.count(&format!("sweep.host-panic.{}", r.1)); ctx.note(&format!("sweep host panic in {}: {}", r.1, msg)); *vm = new_vm();
+                    if !ctx.cov.contains_key(&format!("sweep.host-panic.{}", r.1)) { ctx.note(&format!("sweep host panic in {}: {}", r.1, msg)); }
+                    ctx.count(&format!("sweep.host-panic.{}", r.1)); *vm = new_vm();
                 }
             }
         }
